@@ -194,6 +194,15 @@ type gwEmbOuter struct {
 	N int64 `json:"n"`
 }
 
+type gwHidden struct {
+	Owner string `json:"owner"`
+}
+
+type gwFile struct {
+	*gwHidden
+	Name string `json:"name"`
+}
+
 type gwDisabled struct {
 	Old string `json:"old"`
 	N   int64  `json:"n"`
@@ -230,6 +239,78 @@ func groupStructRepairWitnesses(s *sink) {
 		}
 		return hx.Result{R: "ok"}
 	})
+	// the same struct mapped through a POINTER type: Validate and Serialize only read the value they are given
+	rp := hx.Guard(func() hx.Result {
+		o := schema.NewStructMappedObjectSchema[*gwEmbOuter]("OuterP", map[string]*schema.PropertySchema{
+			"x": opt(schema.NewIntSchema(nil, nil, nil)), "n": opt(schema.NewIntSchema(nil, nil, nil))})
+		lst := schema.NewListSchema(o, nil, nil)
+		v := &gwEmbOuter{N: 1}
+		if err := o.Validate(v); err != nil {
+			return hx.Result{R: "err", Msg: "Validate: " + err.Error()}
+		}
+		if v.GwEmbInner != nil {
+			return hx.Result{R: "err", Msg: "MODIFIED: Validate allocated the embedded struct inside the value it was given"}
+		}
+		w, err := o.Serialize(v)
+		if err != nil {
+			return hx.Result{R: "err", Msg: "Serialize: " + err.Error()}
+		}
+		if v.GwEmbInner != nil {
+			return hx.Result{R: "err", Msg: "MODIFIED: Serialize allocated the embedded struct inside the value it was given"}
+		}
+		if m, ok := w.(map[string]any); !ok || len(m) != 1 {
+			return hx.Result{R: "err", Msg: fmt.Sprintf("Serialize emitted fields that are not set: %v", w)}
+		}
+		vs := []*gwEmbOuter{{N: 2}, {N: 3}}
+		if err := lst.Validate(vs); err != nil {
+			return hx.Result{R: "err", Msg: "Validate of a list: " + err.Error()}
+		}
+		if _, err := lst.Serialize(vs); err != nil {
+			return hx.Result{R: "err", Msg: "Serialize of a list: " + err.Error()}
+		}
+		if vs[0].GwEmbInner != nil || vs[1].GwEmbInner != nil {
+			return hx.Result{R: "err", Msg: "MODIFIED: Validate / Serialize of a list allocated embedded structs inside its items"}
+		}
+		return hx.Result{R: "ok"}
+	})
+	if rp.R == "panic" {
+		s.finding(Finding{Prop: "C04", What: "struct-mapped object over a pointer to a struct with an embedded struct pointer panicked: " + rp.Msg})
+	} else if rp.R != "ok" {
+		prop := "C01"
+		if strings.HasPrefix(rp.Msg, "MODIFIED") {
+			prop = "C12"
+		}
+		s.finding(Finding{Prop: prop, What: "struct-mapped object over a pointer to a struct with an embedded struct pointer: " + rp.Msg})
+	}
+	// an embedded pointer to an UNEXPORTED struct type cannot be allocated by reflection: a property on a field
+	// promoted from it is refused with an error when it is given, and reads as not set
+	rh := hx.Guard(func() hx.Result {
+		o := schema.NewStructMappedObjectSchema[gwFile]("File", map[string]*schema.PropertySchema{
+			"owner": opt(schema.NewStringSchema(nil, nil, nil)), "name": opt(schema.NewStringSchema(nil, nil, nil))})
+		if _, err := o.Unserialize(map[string]any{"owner": "ann", "name": "f"}); err == nil {
+			return hx.Result{R: "err", Msg: "a field that cannot be set was accepted"}
+		}
+		v, err := o.Unserialize(map[string]any{"name": "f"})
+		if err != nil {
+			return hx.Result{R: "err", Msg: "valid input rejected: " + err.Error()}
+		}
+		if err := o.Validate(v); err != nil {
+			return hx.Result{R: "err", Msg: "Validate: " + err.Error()}
+		}
+		if _, err := o.Serialize(v); err != nil {
+			return hx.Result{R: "err", Msg: "Serialize: " + err.Error()}
+		}
+		lst := schema.NewListSchema(o, nil, nil)
+		if _, err := lst.Unserialize([]any{map[string]any{"owner": "ann"}}); err == nil {
+			return hx.Result{R: "err", Msg: "a field that cannot be set was accepted (list item)"}
+		}
+		return hx.Result{R: "ok"}
+	})
+	if rh.R == "panic" {
+		s.finding(Finding{Prop: "C04", What: "struct-mapped object over a struct with an embedded pointer to an unexported struct panicked: " + rh.Msg})
+	} else if rh.R != "ok" {
+		s.finding(Finding{Prop: "C03", What: "struct-mapped object over a struct with an embedded pointer to an unexported struct: " + rh.Msg})
+	}
 	s.stats["gowitness:embedded"]++
 	if r.R == "panic" {
 		s.finding(Finding{Prop: "C04", What: "struct-mapped object over a struct with an embedded struct pointer panicked: " + r.Msg})
